@@ -1,5 +1,5 @@
 """bounded clauses of C05 on fitted objects (see rtc/battery.py)"""
 from rtc import battery
-ALL = ['Discretizer', 'QuantitativeDiscretizer', 'QualitativeDiscretizer', 'BinaryCarver', 'ContinuousCarver', 'MulticlassCarver']
+ALL = ['Discretizer', 'QuantitativeDiscretizer', 'QualitativeDiscretizer', 'BinaryCarver', 'ContinuousCarver', 'MulticlassCarver', 'OrdinalDiscretizer', 'CategoricalDiscretizer', 'ContinuousDiscretizer']
 def run(ctx):
     battery.run_battery(ctx, {'C05'}, kinds=ALL)
